@@ -459,7 +459,6 @@ def md_find_all(strings, out):
         while q <= len(out):
             e = md_match(s, out, q)
             if e is not None:
-                # the character before must not be an unpaired backslash that would swallow our first escape
                 break
             q += 1
         else:
@@ -619,7 +618,6 @@ def oracle_document(case, io_, spec):
         if not ok:
             fails.append('html_wellformed: document: html.parser: %s' % why)
         else:
-            dd = [chars for st, chars in runs if 'dd' in st]
             dds = []
             # character data per <dd>: runs are split where the element stack changes; regroup by position in the document
             cur = None
@@ -634,7 +632,6 @@ def oracle_document(case, io_, spec):
             exp = [p for p in spec['plain'] if p]
             if dds != exp:
                 fails.append('html_text: document: the <dd> elements hold %r, the texts are %r' % (dds, exp))
-            del dd
     if b == 'plaintext' and not fails:
         exp = ''.join('[%s] %s\n' % (e['label'], p) for e, p in zip(case['entries'], spec['plain']))
         if doc != exp:
